@@ -11,6 +11,7 @@ from ..dataflow import flow_of
 from ..program import FunctionInfo, dotted, norm, own_nodes
 from ..report import RuleResult
 from . import config as cfgrules
+from ..shape import family, facts_at, inline_locals
 
 
 def _rets(f: FunctionInfo) -> List[ast.Return]:
@@ -25,10 +26,11 @@ def rule_mapagree(ctx: Ctx) -> RuleResult:
 
     def table_reads(f):
         out = {"global": [], "typed": []}
-        for n in own_nodes(f.node):
-            if isinstance(n, ast.Call) and isinstance(n.func, ast.Attribute) and n.func.attr == "get" \
-                    and norm(n.func.value).endswith(".path_mapping") and n.args:
-                (out["typed"] if isinstance(n.args[0], ast.Tuple) else out["global"]).append(n)
+        for g in family(ctx, f):
+            for n in own_nodes(g.node):
+                if isinstance(n, ast.Call) and isinstance(n.func, ast.Attribute) and n.func.attr == "get" \
+                        and norm(n.func.value).endswith(".path_mapping") and n.args:
+                    (out["typed"] if isinstance(n.args[0], ast.Tuple) else out["global"]).append(n)
         return out
 
     a, b = table_reads(p2d), table_reads(d2p)
@@ -44,10 +46,10 @@ def rule_mapagree(ctx: Ctx) -> RuleResult:
             if not (len(t.elts) == 2 and norm(t.elts[0]) == "key"):
                 res.violation([f.qualname, norm(c), "typed mapping key"], f"{f.short}: `{norm(c)}` is not keyed by (key, type)", f.relpath, c.lineno)
     # forward: value -> mapping.get(value, value); reverse: get_key(mapping, value, value)
-    fwd = [n for n in own_nodes(p2d.node) if isinstance(n, ast.Call) and isinstance(n.func, ast.Attribute) and n.func.attr == "get"
-           and len(n.args) == 2 and norm(n.args[0]) == norm(n.args[1])]
-    rev = [n for n in own_nodes(d2p.node) if isinstance(n, ast.Call) and (dotted(n.func) or "").endswith("get_key") and len(n.args) == 3
-           and norm(n.args[1]) == norm(n.args[2])]
+    fwd = [n for g in family(ctx, p2d) for n in own_nodes(g.node) if isinstance(n, ast.Call) and isinstance(n.func, ast.Attribute)
+           and n.func.attr == "get" and len(n.args) == 2 and norm(n.args[0]) == norm(n.args[1])]
+    rev = [n for g in family(ctx, d2p) for n in own_nodes(g.node) if isinstance(n, ast.Call) and (dotted(n.func) or "").endswith("get_key")
+           and len(n.args) == 3 and norm(n.args[1]) == norm(n.args[2])]
     if len(fwd) >= 2 and len(rev) >= 2:
         res.ok("fs_resolver path_mapping", f"forward mapping.get(v, v) x{len(fwd)} in path_to_dict; reverse get_key(mapping, v, v) x{len(rev)} "
                                            f"in dict_to_path; same global and (key, type) entries")
@@ -94,6 +96,22 @@ def rule_keyorder(ctx: Ctx) -> RuleResult:
             deps = flow.depends(d.generators[0].iter)
             ok = any(a.text.endswith("key_types") for a in deps)
             why = "comprehension does not iterate key_types"
+        if not ok and isinstance(d, ast.Name):
+            # ordered = OrderedDict((key, data.get(key)) for key in <derived from key_types>)  /  {k: ... for k in ...}
+            for x in flow.defs_reaching(at.id, d.id):
+                v = x.value
+                comp = None
+                if isinstance(v, ast.Call) and dotted(v.func) in ("OrderedDict", "dict", "collections.OrderedDict") and len(v.args) == 1 \
+                        and isinstance(v.args[0], (ast.GeneratorExp, ast.ListComp)):
+                    comp = v.args[0]
+                elif isinstance(v, ast.DictComp):
+                    comp = v
+                if comp is not None:
+                    deps = flow.depends(comp.generators[0].iter, x.node)
+                    if any(a.text.endswith("key_types") for a in deps):
+                        ok = True
+                    else:
+                        why = f"the returned dictionary is built in the order of `{norm(comp.generators[0].iter)}`, which does not come from key_types"
     if ok:
         res.ok("fs_resolver.path_to_dict", "returns a fresh dictionary filled in key_types[basetype] order")
     else:
@@ -224,7 +242,8 @@ def rule_canon(ctx: Ctx) -> RuleResult:
         for cmp_ in [x for x in ast.walk(t.ast.test) if isinstance(x, ast.Compare) and len(x.ops) == 1 and isinstance(x.ops[0], (ast.Eq, ast.NotEq))]:
             sides = [cmp_.left, cmp_.comparators[0]]
             deps = [flow.depends(s, t.id) for s in sides]
-            has_fmt = any(any(a.kind == "call" and a.text.split(".")[-1] in ("format", "format_one", "dict_to_sid") for a in d) for d in deps)
+            has_fmt = any(any(a.kind == "call" and (a.text.split(".")[-1] in ("format", "format_one", "dict_to_sid") or _helper_formats(ctx, f, a))
+                              for a in d) for d in deps)
             has_sid = any(isinstance(s, ast.Name) and s.id == sid_p for s in sides)
             if has_fmt and has_sid:
                 good = "true" if isinstance(cmp_.ops[0], ast.Eq) else "false"
@@ -242,3 +261,19 @@ def rule_canon(ctx: Ctx) -> RuleResult:
     else:
         res.ok("resolva anchoring", "templates are anchored without '$'")
     return res
+
+
+def _helper_formats(ctx: Ctx, f: FunctionInfo, atom) -> bool:
+    """the call goes to a private helper of the same module whose result is a template format of its arguments"""
+    node = atom.node
+    if not isinstance(node, ast.Call):
+        return False
+    for cs in ctx.cg.sites.get(f.qualname, []):
+        if cs.node is node:
+            for t in cs.targets:
+                if t.module is f.module and t.name.startswith("_"):
+                    fl = flow_of(t.node)
+                    for r in _rets(t):
+                        if r.value is not None and any(a.kind == "call" and a.text.split(".")[-1] in ("format", "format_one") for a in fl.depends(r.value)):
+                            return True
+    return False
